@@ -4,6 +4,7 @@
   that name.  Imports models and specs only (no Mathlib), so it links.
 -/
 import SRVerif.Driver.C16
+import SRVerif.Driver.C16Table
 import SRVerif.Driver.C18
 import SRVerif.Driver.Solve
 import SRVerif.Driver.C17
@@ -25,7 +26,7 @@ import SRVerif.Driver.C15Draw
 open Lean SR.Drv
 
 def allHandlers : List (String × Handler) :=
-  C16.handlers ++ C18.handlers ++ Solve.handlers ++ C17.handlers ++ C19.handlers ++ C06.handlers ++ C20.handlers ++ C08.handlers ++ C13.handlers ++ C15.handlers ++ C11.handlers ++ C12.handlers ++ C05Any.handlers ++ C01Code.handlers ++ C02Code.handlers ++ C03Code.handlers ++ C11Newick.handlers ++ C15Draw.handlers
+  C16.handlers ++ C16T.handlers ++ C18.handlers ++ Solve.handlers ++ C17.handlers ++ C19.handlers ++ C06.handlers ++ C20.handlers ++ C08.handlers ++ C13.handlers ++ C15.handlers ++ C11.handlers ++ C12.handlers ++ C05Any.handlers ++ C01Code.handlers ++ C02Code.handlers ++ C03Code.handlers ++ C11Newick.handlers ++ C15Draw.handlers
 
 def handleLine (line : String) : String :=
   match Json.parse line with
